@@ -34,9 +34,17 @@ const cycleFrom = 64
 
 const maxDepth = 10000
 
-func enc(sb *strings.Builder, v any, depth int) { encp(sb, v, depth, nil) }
+func enc(sb *strings.Builder, v any, depth int) { encp(sb, v, depth, nil, false) }
 
-func encp(sb *strings.Builder, v any, depth int, path map[uintptr]bool) {
+// EncFull is Enc over the full capacity of every array: the slots between length and capacity
+// follow a `|`. Memory behind the length of a slice the caller owns is the caller's too.
+func EncFull(v any) string {
+	var sb strings.Builder
+	encp(&sb, v, 0, nil, true)
+	return sb.String()
+}
+
+func encp(sb *strings.Builder, v any, depth int, path map[uintptr]bool, full bool) {
 	if depth >= cycleFrom {
 		var p uintptr
 		switch v := v.(type) {
@@ -105,7 +113,16 @@ func encp(sb *strings.Builder, v any, depth int, path map[uintptr]bool) {
 			if i > 0 {
 				sb.WriteString(",")
 			}
-			encp(sb, x, depth+1, path)
+			encp(sb, x, depth+1, path, full)
+		}
+		if full && cap(v) > len(v) {
+			sb.WriteString("|")
+			for i, x := range v[len(v):cap(v)] {
+				if i > 0 {
+					sb.WriteString(",")
+				}
+				encp(sb, x, depth+1, path, full)
+			}
 		}
 		sb.WriteString("]")
 	case map[string]any:
@@ -121,7 +138,7 @@ func encp(sb *strings.Builder, v any, depth int, path map[uintptr]bool) {
 			}
 			sb.WriteString(strconv.Quote(k))
 			sb.WriteString(":")
-			encp(sb, v[k], depth+1, path)
+			encp(sb, v[k], depth+1, path, full)
 		}
 		sb.WriteString("}")
 	case error:
